@@ -1,3 +1,4 @@
+import Cactus.Lemmas.Final
 import Cactus.Lemmas.Basic
 import Cactus.Lemmas.Table
 /-!
@@ -39,5 +40,29 @@ theorem C12_purgeOne_core (x : Nat) (s : State) (e : Link × Nat) (o : Nat) (ho 
 
 example : Table.remove (Table.remove [(⟨3, .fwd⟩, 2), (⟨3, .bwd⟩, 1), (⟨4, .fwd⟩, 1)] ⟨3, .fwd⟩ 2) ⟨3, .bwd⟩ 2
     = [(⟨4, .fwd⟩, 1)] := by decide
+
+
+/-! ## Over whole histories: nothing keeps a bookkeeping reference to a given-up allocation -/
+
+/-- **C12.** In every reachable state (in particular after any `try_unwrap`, `make_mut`,
+`get_mut`, raw round trip or `increment/decrement_strong_count` on objects that adopted or were
+adopted) no readable link table contains a Forward or Backward record naming an object that is not
+live: no former peer keeps a reference to an allocation that was given up. -/
+theorem C12_no_reference_to_given_up {s : State} (h : Reachable s) (he : s.err = none)
+    {a o : Nat} (hdead : s.isLive o = false) : s.F a o = 0 ∧ s.B a o = 0 := by
+  have hB := (reachable_core h he).1.2.1
+  constructor
+  · cases hz : s.F a o with
+    | zero => rfl
+    | succ k =>
+      obtain ⟨c, hm⟩ := (State.F_pos_iff hB a o).mp (by omega)
+      have := State.entry_live hB hm (by simp)
+      simp [hdead] at this
+  · cases hz : s.B a o with
+    | zero => rfl
+    | succ k =>
+      obtain ⟨c, hm⟩ := (State.B_pos_iff hB a o).mp (by omega)
+      have := State.entry_live hB hm (by simp)
+      simp [hdead] at this
 
 end Cactus
